@@ -27,6 +27,7 @@ class HBFont:
             out.append((self.name(info.codepoint), pos.x_advance, pos.y_advance, pos.x_offset, pos.y_offset))
         return out
     def advance(self, gid): return self.font.get_glyph_h_advance(gid)
+    def v_advance(self, gid): return self.font.get_glyph_v_advance(gid)
     def nominal(self, cp): return self.font.get_nominal_glyph(cp)
     def outline(self, gid):
         """list of pen calls"""
